@@ -262,12 +262,14 @@ func init() {
 	register(&Check{
 		ID: "C09",
 		Expl: "Decides the clause 'producing a peer's copy never alters the stored route': (E2a) no function of the table/server/apiutil packages writes through memory handed out by a Path getter (attribute objects and slices shared between a clone, the stored route and other peers' copies); (E2b) every call of a route-content mutator of Path is made on a path that is fresh in that function (Clone/NewPath/…) or is a reviewed ingress normalisation; " +
-			"(E6.inbound-loop-checks) in handleUpdate the own-AS and ORIGINATOR_ID checks precede the append to the list handed to the RIB, and Adj-RIB-In is updated afterwards.",
+			"(E6.inbound-loop-checks) in handleUpdate the own-AS and ORIGINATOR_ID checks precede the append to the list handed to the RIB, and Adj-RIB-In is updated afterwards. Also: (E6.loop-check-full-path) the sequence-only AS list is used only by AS-path policy code, never by loop prevention; (E6.path-cache-reset) memoised Path fields are reset by the attribute mutators.",
 		Not: "Which attributes each peer type must receive (AS prepend count, next-hop value, MED/LOCAL_PREF presence) and the split-horizon / reflection rule table depend on runtime peer attributes and are not decided.",
 		Run: func(c *Ctx) {
 			c.ruleSharedAttrWrites("E2a.shared-write", []string{"internal/pkg/table", "pkg/server", "pkg/apiutil"}, 60)
 			c.ruleOwnedPathMutation("E2b.owned-path", 30)
 			c.ruleInboundLoopChecks()
+			c.ruleSeqOnlyAccessor("E6.loop-check-full-path")
+			c.rulePathCacheReset("E6.path-cache-reset")
 		},
 	})
 }
